@@ -48,6 +48,10 @@ def enc(obj):
         return obj
     if isinstance(obj, complex):
         return {"__complex__": [obj.real, obj.imag]}
+    if isinstance(obj, bytes):
+        return {"__bytes__": obj.decode("latin1")}
+    if type(obj).__name__ == "Decimal":
+        return {"__decimal__": str(obj)}
     if isinstance(obj, (list, tuple)):
         return [enc(x) for x in obj]
     if isinstance(obj, dict):
@@ -69,6 +73,12 @@ def dec(obj):
             return float(obj["__float__"])
         if "__complex__" in obj:
             return complex(*obj["__complex__"])
+        if "__bytes__" in obj:
+            return obj["__bytes__"].encode("latin1")
+        if "__decimal__" in obj:
+            import decimal
+
+            return decimal.Decimal(obj["__decimal__"])
         return {k: dec(v) for k, v in obj.items()}
     return obj
 
